@@ -16,55 +16,55 @@ type Value = atomic.Value
 type Int32 struct{ v atomic.Int32 }
 
 func (a *Int32) Load() int32                    { y(); return a.v.Load() }
-func (a *Int32) Store(x int32)                  { y(); a.v.Store(x) }
-func (a *Int32) Swap(x int32) int32             { y(); return a.v.Swap(x) }
-func (a *Int32) Add(x int32) int32              { y(); return a.v.Add(x) }
+func (a *Int32) Store(x int32)                  { y(); a.v.Store(x); yw() }
+func (a *Int32) Swap(x int32) int32             { y(); return w(a.v.Swap(x)) }
+func (a *Int32) Add(x int32) int32              { y(); return w(a.v.Add(x)) }
 func (a *Int32) CompareAndSwap(o, n int32) bool { y(); return cas(a.v.CompareAndSwap(o, n)) }
 
 type Uint32 struct{ v atomic.Uint32 }
 
 func (a *Uint32) Load() uint32                    { y(); return a.v.Load() }
-func (a *Uint32) Store(x uint32)                  { y(); a.v.Store(x) }
-func (a *Uint32) Swap(x uint32) uint32            { y(); return a.v.Swap(x) }
-func (a *Uint32) Add(x uint32) uint32             { y(); return a.v.Add(x) }
+func (a *Uint32) Store(x uint32)                  { y(); a.v.Store(x); yw() }
+func (a *Uint32) Swap(x uint32) uint32            { y(); return w(a.v.Swap(x)) }
+func (a *Uint32) Add(x uint32) uint32             { y(); return w(a.v.Add(x)) }
 func (a *Uint32) CompareAndSwap(o, n uint32) bool { y(); return cas(a.v.CompareAndSwap(o, n)) }
 
 type Uint64 struct{ v atomic.Uint64 }
 
 func (a *Uint64) Load() uint64                    { y(); return a.v.Load() }
-func (a *Uint64) Store(x uint64)                  { y(); a.v.Store(x) }
-func (a *Uint64) Swap(x uint64) uint64            { y(); return a.v.Swap(x) }
-func (a *Uint64) Add(x uint64) uint64             { y(); return a.v.Add(x) }
+func (a *Uint64) Store(x uint64)                  { y(); a.v.Store(x); yw() }
+func (a *Uint64) Swap(x uint64) uint64            { y(); return w(a.v.Swap(x)) }
+func (a *Uint64) Add(x uint64) uint64             { y(); return w(a.v.Add(x)) }
 func (a *Uint64) CompareAndSwap(o, n uint64) bool { y(); return cas(a.v.CompareAndSwap(o, n)) }
 
 type Int64 struct{ v atomic.Int64 }
 
 func (a *Int64) Load() int64                    { y(); return a.v.Load() }
-func (a *Int64) Store(x int64)                  { y(); a.v.Store(x) }
-func (a *Int64) Swap(x int64) int64             { y(); return a.v.Swap(x) }
-func (a *Int64) Add(x int64) int64              { y(); return a.v.Add(x) }
+func (a *Int64) Store(x int64)                  { y(); a.v.Store(x); yw() }
+func (a *Int64) Swap(x int64) int64             { y(); return w(a.v.Swap(x)) }
+func (a *Int64) Add(x int64) int64              { y(); return w(a.v.Add(x)) }
 func (a *Int64) CompareAndSwap(o, n int64) bool { y(); return cas(a.v.CompareAndSwap(o, n)) }
 
 type Uintptr struct{ v atomic.Uintptr }
 
 func (a *Uintptr) Load() uintptr                    { y(); return a.v.Load() }
-func (a *Uintptr) Store(x uintptr)                  { y(); a.v.Store(x) }
-func (a *Uintptr) Swap(x uintptr) uintptr           { y(); return a.v.Swap(x) }
-func (a *Uintptr) Add(x uintptr) uintptr            { y(); return a.v.Add(x) }
+func (a *Uintptr) Store(x uintptr)                  { y(); a.v.Store(x); yw() }
+func (a *Uintptr) Swap(x uintptr) uintptr           { y(); return w(a.v.Swap(x)) }
+func (a *Uintptr) Add(x uintptr) uintptr            { y(); return w(a.v.Add(x)) }
 func (a *Uintptr) CompareAndSwap(o, n uintptr) bool { y(); return cas(a.v.CompareAndSwap(o, n)) }
 
 type Bool struct{ v atomic.Bool }
 
 func (a *Bool) Load() bool                    { y(); return a.v.Load() }
-func (a *Bool) Store(x bool)                  { y(); a.v.Store(x) }
-func (a *Bool) Swap(x bool) bool              { y(); return a.v.Swap(x) }
+func (a *Bool) Store(x bool)                  { y(); a.v.Store(x); yw() }
+func (a *Bool) Swap(x bool) bool              { y(); return w(a.v.Swap(x)) }
 func (a *Bool) CompareAndSwap(o, n bool) bool { y(); return cas(a.v.CompareAndSwap(o, n)) }
 
 type Pointer[T any] struct{ v atomic.Pointer[T] }
 
 func (a *Pointer[T]) Load() *T                    { y(); return a.v.Load() }
-func (a *Pointer[T]) Store(x *T)                  { y(); a.v.Store(x) }
-func (a *Pointer[T]) Swap(x *T) *T                { y(); return a.v.Swap(x) }
+func (a *Pointer[T]) Store(x *T)                  { y(); a.v.Store(x); yw() }
+func (a *Pointer[T]) Swap(x *T) *T                { y(); return w(a.v.Swap(x)) }
 func (a *Pointer[T]) CompareAndSwap(o, n *T) bool { y(); return cas(a.v.CompareAndSwap(o, n)) }
 
 func cas(ok bool) bool {
@@ -72,27 +72,35 @@ func cas(ok bool) bool {
 		if s := simrt.Active(); s != nil {
 			s.Count("probe:cas-failed")
 		}
+		return false
 	}
-	return ok
+	yw()
+	return true
 }
 
+// yw is the scheduling point after an atomic write: other tasks may observe
+// the new value before the writer executes its next statement.
+func yw() { simrt.Yield("atomic.after") }
+
+func w[T any](v T) T { yw(); return v }
+
 // function-style API
-func AddInt32(p *int32, d int32) int32      { y(); return atomic.AddInt32(p, d) }
-func AddInt64(p *int64, d int64) int64      { y(); return atomic.AddInt64(p, d) }
-func AddUint32(p *uint32, d uint32) uint32  { y(); return atomic.AddUint32(p, d) }
-func AddUint64(p *uint64, d uint64) uint64  { y(); return atomic.AddUint64(p, d) }
+func AddInt32(p *int32, d int32) int32      { y(); return w(atomic.AddInt32(p, d)) }
+func AddInt64(p *int64, d int64) int64      { y(); return w(atomic.AddInt64(p, d)) }
+func AddUint32(p *uint32, d uint32) uint32  { y(); return w(atomic.AddUint32(p, d)) }
+func AddUint64(p *uint64, d uint64) uint64  { y(); return w(atomic.AddUint64(p, d)) }
 func LoadInt32(p *int32) int32              { y(); return atomic.LoadInt32(p) }
 func LoadInt64(p *int64) int64              { y(); return atomic.LoadInt64(p) }
 func LoadUint32(p *uint32) uint32           { y(); return atomic.LoadUint32(p) }
 func LoadUint64(p *uint64) uint64           { y(); return atomic.LoadUint64(p) }
-func StoreInt32(p *int32, v int32)          { y(); atomic.StoreInt32(p, v) }
-func StoreInt64(p *int64, v int64)          { y(); atomic.StoreInt64(p, v) }
-func StoreUint32(p *uint32, v uint32)       { y(); atomic.StoreUint32(p, v) }
-func StoreUint64(p *uint64, v uint64)       { y(); atomic.StoreUint64(p, v) }
-func SwapInt32(p *int32, v int32) int32     { y(); return atomic.SwapInt32(p, v) }
-func SwapInt64(p *int64, v int64) int64     { y(); return atomic.SwapInt64(p, v) }
-func SwapUint32(p *uint32, v uint32) uint32 { y(); return atomic.SwapUint32(p, v) }
-func SwapUint64(p *uint64, v uint64) uint64 { y(); return atomic.SwapUint64(p, v) }
+func StoreInt32(p *int32, v int32)          { y(); atomic.StoreInt32(p, v); yw() }
+func StoreInt64(p *int64, v int64)          { y(); atomic.StoreInt64(p, v); yw() }
+func StoreUint32(p *uint32, v uint32)       { y(); atomic.StoreUint32(p, v); yw() }
+func StoreUint64(p *uint64, v uint64)       { y(); atomic.StoreUint64(p, v); yw() }
+func SwapInt32(p *int32, v int32) int32     { y(); return w(atomic.SwapInt32(p, v)) }
+func SwapInt64(p *int64, v int64) int64     { y(); return w(atomic.SwapInt64(p, v)) }
+func SwapUint32(p *uint32, v uint32) uint32 { y(); return w(atomic.SwapUint32(p, v)) }
+func SwapUint64(p *uint64, v uint64) uint64 { y(); return w(atomic.SwapUint64(p, v)) }
 func CompareAndSwapInt32(p *int32, o, n int32) bool {
 	y()
 	return cas(atomic.CompareAndSwapInt32(p, o, n))
@@ -110,7 +118,7 @@ func CompareAndSwapUint64(p *uint64, o, n uint64) bool {
 	return cas(atomic.CompareAndSwapUint64(p, o, n))
 }
 func LoadPointer(p *unsafe.Pointer) unsafe.Pointer     { y(); return atomic.LoadPointer(p) }
-func StorePointer(p *unsafe.Pointer, v unsafe.Pointer) { y(); atomic.StorePointer(p, v) }
+func StorePointer(p *unsafe.Pointer, v unsafe.Pointer) { y(); atomic.StorePointer(p, v); yw() }
 func CompareAndSwapPointer(p *unsafe.Pointer, o, n unsafe.Pointer) bool {
 	y()
 	return cas(atomic.CompareAndSwapPointer(p, o, n))
